@@ -96,9 +96,11 @@ pub fn spawn(
                                 .map(|seq| seq + 1)
                                 .collect();
 
+                        // Wait until the update is applied: the client is answered below, and a
+                        // read that follows the answer must find the watermark covering this write.
                         let _ = config
                             .confirmation_ref
-                            .tell(UpdateConfirmationWithBroadcast {
+                            .ask(UpdateConfirmationWithBroadcast {
                                 partition_id,
                                 versions: confirmation_versions.clone(),
                                 confirmation_count,
